@@ -268,6 +268,8 @@ def truthy(v, len_of_ref=None):
             return z3.BoolVal(False)
         return z3.Length(v.t) > 0
     if isinstance(s, MapT):
+        if s.k is None:
+            return z3.BoolVal(False)          # the untyped empty dict literal
         return z3.Length(v.c['keys']) > 0
     if isinstance(s, TupT):
         return z3.BoolVal(len(s.elems) > 0)
